@@ -416,6 +416,126 @@ for _kwk in ("None", "once", "each"):
         TASKS.append(FunctionTask(_c, module_env=_READ_ENV, label=f"hvsrpy.data_wrangler.read[options={_kwk},orientation={_dgk}]",
                                   clauses=["read() hands each recording its own orientation and reader options, in order"]))
 
+# ---------------------------------------------------------------------------------------------------------------------
+# _read_sac: three files, each tried as little endian first and as big endian when that fails.  obspy is opaque and may fail: CAN_READ(file, byte order) says
+# whether it reads the file in that order, TRACE_OF(file, byte order) is the first trace it then returns.  Proved: a file readable in either order is read in the
+# first order that works (little before big), the three first traces go to _arrange_traces in the order of the file names, its (ns, ew, vt) to the recording;
+# the function raises exactly when some file can be read in neither order (then nothing is returned); something that is not a list or tuple is refused.
+from pyvc.core import PyRaise, PyRaiseIf
+CAN_READ = z3.Function("obspy_can_read", I, I, z3.BoolSort())       # (file id, byte order: 0 little / 1 big)
+TRACE_OF = z3.Function("first_trace", I, I, I)                       # (file id, byte order) -> id of the first trace returned
+_ORDER = {"little": 0, "big": 1}
+
+
+def _m_obspy_read_sac(ex, st, args, kw, node):
+    f = _fid(args[0])
+    bo = kw.get("byteorder")
+    if type(bo) is not StrV or bo.s not in _ORDER or type(kw.get("format")) is not StrV or kw["format"].s != "SAC":
+        raise Undecided("obspy is not asked for SAC in a definite byte order")
+    o = z3.IntVal(_ORDER[bo.s])
+    ok = CAN_READ(f, o)
+    if any(z3.eq(p_, z3.Not(ok)) for p_ in st.pc):
+        raise PyRaise("Exception", "obspy cannot read this file in this byte order")
+    if not any(z3.eq(p_, ok) for p_ in st.pc):
+        raise PyRaiseIf(z3.Not(ok), "Exception")
+    t = z3.Int("t!tr")
+    n = ex.fresh("n_traces", I)
+    st.pc.append(n >= 1)          # a SAC file holds one trace (A-OBSPY)
+    return new_symlist(ex, st, "Trace", length=n, arr=z3.Lambda([t], z3.If(t == 0, TRACE_OF(f, o), z3.IntVal(-7))), owner="fresh", name="stream")
+
+
+def _sac_inputs(deg_given, as_list=True):
+    def mk(ex, st):
+        st.env["fnames"] = ex.alloc_list(st, [StrV("<a>"), StrV("<b>"), StrV("<c>")]) if as_list else StrV("<fname>")
+        st.env["obspy_read_kwargs"] = NONE
+        st.env["degrees_from_north"] = DEG_IN if deg_given else NONE
+        return []
+    return mk
+
+
+def _first(f):
+    return f"ite(CAN(1{f}, 0), TRC(1{f}, 0), TRC(1{f}, 1))"
+
+
+_readable = " and ".join(f"(CAN(1{f}, 0) or CAN(1{f}, 1))" for f in (1, 2, 3))
+_SAC_GHOST = {"comp_is": FuncV(_comp_is, "comp_is"), "CAN": CAN_READ, "TRC": TRACE_OF}
+_SAC_ENV = dict(_OB_ENV, str=_STRCLS, _quiet_obspy_read=FuncV(_m_obspy_read_sac, "_quiet_obspy_read"))
+_SAC_ENV["io"] = ModV("io", {"StringIO": ClsV("StringIO"), "BytesIO": ClsV("BytesIO")})
+for _dg in (False, True):
+    _c = Contract(qual="hvsrpy.data_wrangler._read_sac", params=["fnames", "obspy_read_kwargs", "degrees_from_north"], ghost=_SAC_GHOST, make_inputs=_sac_inputs(_dg),
+                  ensures=[f"comp_is(result.{c}, {k}, {_first(1)}, {_first(2)}, {_first(3)})" for k, c in enumerate(("ns", "ew", "vt"))]
+                  + ["result.degrees_from_north == " + ("degrees_from_north" if _dg else "0"), _readable],
+                  raises_only_if={"UnboundLocalError": f"not ({_readable})"}, modifies=[],
+                  notes="each file in the first byte order obspy can read it in (little, then big); the three first traces in file-name order go to _arrange_traces and its "
+                        "(ns, ew, vt) to the recording; no recording when some file is readable in neither order (the exception raised then is an UnboundLocalError, "
+                        "because Python unbinds `e` at the end of the handler - the original error is only logged)")
+    _c.conditional_raises = True
+    TASKS.append(FunctionTask(_c, module_env=_SAC_ENV, label=f"hvsrpy.data_wrangler._read_sac[three files,degrees_from_north={'given' if _dg else 'None'}]",
+                              clauses=["SAC of either byte order: little endian first, then big; components by _arrange_traces; orientation default 0"]))
+_c = Contract(qual="hvsrpy.data_wrangler._read_sac", params=["fnames", "obspy_read_kwargs", "degrees_from_north"], make_inputs=_sac_inputs(False, as_list=False),
+              raises={"ValueError": "True"}, ensures=[], modifies=[])
+TASKS.append(FunctionTask(_c, module_env=_SAC_ENV, label="hvsrpy.data_wrangler._read_sac[one name]", clauses=["SAC needs three files: a single name is refused"]))
+
+# ---------------------------------------------------------------------------------------------------------------------
+# read_single: the readers of READ_FUNCTION_DICT are tried in table order with the caller's three arguments; the first that does not raise gives the recording;
+# when the last one (peer) raises too, its error leaves the function.  The readers are opaque here: ACCEPTS(k, ...) says whether reader k returns for these
+# arguments, PARSED(k, ...) is what it returns.  (Which reader accepts which file is a matter of the formats: evaluated natively.)
+_READERS = ("mseed", "saf", "minishark", "sac", "gcf", "peer")
+ACCEPTS = z3.Function("reader_accepts", I, I, I, R, z3.BoolSort())       # (reader, file entry, options, orientation)
+PARSED = z3.Function("reader_result", I, I, I, R, I)
+_RS_F, _RS_KW, _RS_DG = z3.Int("file_entry_of_the_recording"), z3.Int("options_of_the_recording"), z3.Real("orientation_of_the_recording")
+
+
+def _m_reader(k):
+    def f(ex, st, args, kw, node):
+        if len(args) != 1 or set(kw) != {"obspy_read_kwargs", "degrees_from_north"}:
+            raise Undecided("a reader is called in another way than reader(fnames, obspy_read_kwargs=..., degrees_from_north=...)")
+        a = (z3.IntVal(k), lit(args[0]), _code_kw(kw["obspy_read_kwargs"]), _code_dg(kw["degrees_from_north"]))
+        ok = ACCEPTS(*a)
+        if any(z3.eq(p_, z3.Not(ok)) for p_ in st.pc):
+            raise PyRaise("Exception", f"reader {_READERS[k]} refuses the file")
+        if not any(z3.eq(p_, ok) for p_ in st.pc):
+            raise PyRaiseIf(z3.Not(ok), "Exception")
+        return PARSED(*a)
+    return FuncV(f, "_read_" + _READERS[k])
+
+
+def _rs_inputs(kw_given, dg_given):
+    def mk(ex, st):
+        st.env["fnames"], st.env["obspy_read_kwargs"], st.env["degrees_from_north"] = _RS_F, (_RS_KW if kw_given else NONE), (_RS_DG if dg_given else NONE)
+        return []
+    return mk
+
+
+def _in_table_order(ex, st, a, k, n_):
+    """the readers consulted on this path (their accept / refuse facts, in the order they were learnt) are readers 0, 1, 2, ... without a gap or a repeat"""
+    t = []
+    for p_ in st.pc:
+        q = p_.arg(0) if z3.is_not(p_) else p_
+        if z3.is_app(q) and q.decl().eq(ACCEPTS):
+            t.append(z3.simplify(q.arg(0)).as_long())
+    return z3.BoolVal(t == list(range(len(t))) and len(t) >= 1)
+
+
+for _kwg in (False, True):
+    for _dgg in (False, True):
+        _a = f"F, {'KW' if _kwg else 'NONE_KW'}, {'DG' if _dgg else 'NONE_DG'}"
+        _res = f"RES(5, {_a})"
+        for _k in (4, 3, 2, 1, 0):
+            _res = f"ite(ACC({_k}, {_a}), RES({_k}, {_a}), {_res})"
+        _any = " or ".join(f"ACC({_k}, {_a})" for _k in range(6))
+        _c = Contract(qual="hvsrpy.data_wrangler.read_single", params=["fnames", "obspy_read_kwargs", "degrees_from_north"],
+                      ghost={"ACC": ACCEPTS, "RES": PARSED, "F": _RS_F, "KW": _RS_KW, "DG": _RS_DG, "NONE_KW": NONE_KW, "NONE_DG": NONE_DG,
+                             "in_table_order": FuncV(_in_table_order, "in_table_order")},
+                      make_inputs=_rs_inputs(_kwg, _dgg), ensures=[f"result == {_res}", _any, "in_table_order()"],
+                      raises_only_if={"Exception": f"not ({_any})"}, modifies=[],
+                      notes="the recording is what the first reader (table order: mseed, saf, minishark, sac, gcf, peer) that accepts the caller's file entry, options and "
+                            "orientation returns for exactly those; an exception leaves the function only when no reader accepts")
+        _c.conditional_raises = True
+        TASKS.append(FunctionTask(_c, module_env={"READ_FUNCTION_DICT": DictV({n_: _m_reader(k_) for k_, n_ in enumerate(_READERS)})},
+                                  label=f"hvsrpy.data_wrangler.read_single[options={'given' if _kwg else 'None'},orientation={'given' if _dgg else 'None'}]",
+                                  clauses=["read_single: the first reader in table order that accepts the file, with the caller's options and orientation"]))
+
 META = dict(
     level="other",
     explanation="proved: _check_npts raises iff the counts differ; _arrange_traces for three traces and all 64 combinations of channel-code endings "
